@@ -377,7 +377,7 @@ def rand_dec(r):
 
 
 def gen_ops(tier, r):
-    n = 20000 if tier == "quick" else 300000
+    n = 12000 if tier == "quick" else 300000
     out = []
     for _ in range(n):
         out.append((r.choice(["add", "sub", "mul", "div", "fix", "toint", "cmp", "int"]), r.choice([6, 6, 6, 1, 2, 3, 9, 28]),
@@ -871,7 +871,7 @@ def run(ctx):
     # ---- histories on one live service
     if replay_case is None:
         rh = rng(seed, "c14hist")
-        n_h = 900 if tier == "quick" else 20000
+        n_h = 600 if tier == "quick" else 20000
         hist_stream(ctx, drv, cov, add, HIST_FIXED + [gen_history(rh, rh.choice([6, 12, 24, 40])) for _ in range(n_h)])
         cov.extra["hist_stream"] = ("%d histories of 6..40 operations on one live Service with 4 Characteristic objects; every Prepare is "
                                     "one case; oracle = metadata in force only; failing Prepares are re-run on fresh objects to "
